@@ -499,6 +499,15 @@ where
     fn may_inject(&self, o: &SObj<R>) -> bool {
         o.inj_used < self.inj_budget
     }
+    fn audit_suffixes(&self, o: &SObj<R>) -> Vec<Vec<u32>> {
+        let mut v = vec![];
+        for ri in 0..self.ranges.len() as u8 {
+            v.push(vec![op_q(ri, o.t, TAKE_ALL), op_q(0, o.t, TAKE_ALL)]);
+        }
+        v.push(vec![K_RESTART << 24, op_q(0, 0, TAKE_ALL)]);
+        v.push(vec![K_CLEAR << 24, op_q(0, o.t, TAKE_ALL)]);
+        v
+    }
     fn twin(&self, hist: &[Step], cx: &mut Cx) -> Option<SObj<R>> {
         if !self.f.o_twin {
             return None;
